@@ -496,6 +496,109 @@ def print_bits_lemma(k, last_bits):
     return body
 
 
+# ---------------------------------------------------------------- translator self-test
+def harvest_lexer_tests():
+    """the texts the repository's own lexer tests feed to the lexer (src/lex.rs, mod tests)"""
+    import re as _re, os
+    from lib.common import REPO
+    src = open(os.path.join(REPO, "src", "lex.rs")).read()
+    i = src.find("mod tests")
+    body = src[i:] if i >= 0 else ""
+    out = []
+    for m in _re.finditer(r'(?:tokenize_input|Xstr::from)\(\s*(?:r#"(.*?)"#|"((?:[^"\\]|\\.)*)")\s*\)', body, _re.S):
+        if m.group(1) is not None:
+            out.append(m.group(1))
+        else:
+            t = unescape_rust('"' + m.group(2) + '"')
+            if t is not None:
+                out.append(t)
+    extra = ["0x-5", "-0x80000000000000000000000000000000", "1_000 0b_1 |f x.| \"a\\n\" é\t\\ c\n", "“q” +1.5e3 \\( x \\) y"]
+    return list(dict.fromkeys(out + extra))
+
+
+def selftest_lemma(L):
+    """run the repository's lexer test inputs through mirsym (concrete characters) and through the real binary;
+    the token streams must agree. A disagreement is a defect of the translator or of the std summaries: the
+    check then ends inconclusive (exit 2), it is never reported as a violation of the property."""
+    from e2.driver import build_replayer, run_scenario
+    ok, msg = build_replayer()
+    if not ok:
+        raise Unsupported("replayer build failed: " + msg)
+    texts = harvest_lexer_tests()
+    n = 0
+    for text in texts:
+        hx = text.encode().hex() or "-"
+        rc, out = run_scenario(["lex 0 " + hx], False)
+        native = [l for l in out.splitlines() if l.startswith("TOK ")]
+        mine = sym_lex(L, text)
+        norm = lambda l: " ".join(l.split(" ")[:4]) if l.split(" ")[1] == "err" else l
+        if [norm(l) for l in native] != [norm(l) for l in mine]:
+            L.undecided.append((L.cur, "TRANSLATOR MISMATCH on %r: native %s vs mirsym %s" % (text, native[:8], mine[:8])))
+        else:
+            n += 1
+    L.selftest_traces = getattr(L, "selftest_traces", 0) + n
+    from e2.lemma import Obligation
+    L.obligations.append(Obligation(L.cur, "translator self-test: %d of %d lexer test inputs of the repository give the same token stream in mirsym and natively" % (n, len(texts)), "holds"))
+    if n == 0:
+        L.undecided.append((L.cur, "VACUOUS: no lexer test input harvested"))
+
+
+def sym_lex(L, text):
+    cv = lambda t: z3.simplify(t).as_long()
+    chars = [z3.BitVecVal(ord(c), 32) for c in text]
+    sym = SymText("st", chars)
+    lex = Struct("lex::Lex", {0: Text(sym, 0, len(chars), "arc"), 1: Int(z3.BitVecVal(0, 64), 64, False), 2: StrBuf([]), 3: Int(z3.BitVecVal(0, 64), 64, False)})
+    r = Ref(Box(lex, name="stlex"), (), True)
+    L.ex.string_model = True
+    lb0, L.ex.loop_bound = L.ex.loop_bound, 5 * len(chars) + 16
+    lines = []
+    try:
+        fn = find_fn(L, "next", "&mut lex::Lex")
+        pc = []
+        for _ in range(len(chars) + 2):
+            outs = [o for o in L.run(fn, [r], pc, {"lx": r}) if L.feasible(o)]
+            if len(outs) != 1 or outs[0].kind != "return":
+                lines.append("TOK ?? %d outcomes %s" % (len(outs), [o.kind for o in outs]))
+                break
+            o = outs[0]
+            r = o.st.ghost["roots"]["lx"]
+            pc = list(o.st.pc)
+            lx1 = L.ex.get_at(None, r.box, r.path)
+            a, b = cv(lx1.fields[3].t), cv(lx1.fields[1].t)
+            if o.value.variant != "Ok":
+                lines.append("TOK err %d %d" % (a, b))
+                break
+            tok = o.value.payload.fields[0]
+            if tok.variant == "EndOfInput":
+                lines.append("TOK eof %d %d" % (a, b))
+                break
+            if tok.variant in ("Word", "Whitespace", "Comment"):
+                sub = tok.payload.fields[0]
+                lines.append("TOK %s %d %d %d %d" % ({"Word": "word", "Whitespace": "ws", "Comment": "comment"}[tok.variant], a, b, cv(sym.offs[sub.lo]), cv(sym.offs[sub.hi])))
+                continue
+            lit = tok.payload.fields[0]
+            if lit.variant == "Int":
+                v = cv(lit.payload.fields[0].t)
+                lines.append("TOK int %d %d %d" % (a, b, v - (1 << 128) if v >> 127 else v))
+            elif lit.variant == "Real":
+                fv = z3.simplify(z3.fpToIEEEBV(lit.payload.fields[0].t))
+                lines.append("TOK real %d %d %016x" % (a, b, fv.as_long()))
+            elif lit.variant == "Str":
+                sv = lit.payload.fields[0]
+                lines.append("TOK str %d %d %s-" % (a, b, "".join(chr(cv(c)) for c in sv.chars()).encode().hex()))
+            elif lit.variant == "Bitstr":
+                bs = lit.payload.fields[0]
+                nb = cv(bs.fields[0].fields[1].t) - cv(bs.fields[0].fields[0].t)
+                bits = bitstr_bits(L, o, bs, nb)
+                lines.append("TOK bits %d %d %s-" % (a, b, "".join(str(cv(x)) for x in bits)))
+            else:
+                lines.append("TOK other %d %d" % (a, b))
+    finally:
+        L.ex.string_model = False
+        L.ex.loop_bound = lb0
+    return lines
+
+
 def run(L, tier, only=None):
     L.ex.path_budget = 60000
     L.lemma_time_budget = 900.0 if tier == "quick" else 3000.0
@@ -515,6 +618,8 @@ def run(L, tier, only=None):
         if not only or nm in only or "long" in only:
             L.lemma("C16 long spelling %s + %d digits%s" % ("".join(p if len(p) == 1 else "[1-9]" for p in prefix), n, " (plumbing)" if uf else ""),
                     long_int_lemma(n, prefix, alpha, uf))
+    if not only or "selftest" in only:
+        L.lemma("C16 translator self-test on the repository's lexer tests", selftest_lemma)
     if not only or "print" in only:
         L.lemma("C16 print integer", print_int_lemma)
         shapes = [(0, 0), (1, 8), (1, 3), (2, 5), (2, 4)] if tier == "quick" else [(0, 0)] + [(k, n) for k in (1, 2, 3) for n in range(1, 9)]
